@@ -120,6 +120,22 @@ def run(ctx):
                 ctx.ob("R6-track", "%s|track|%d" % (norm_fn(p), n_track), ok, t["sp"], "validated first (error leaves)" if ok else
                        "a segment is accounted without validate_after having succeeded: nulls in a non-nullable column reach get_null() / non-canonical runs reach the slab bookkeeping")
     ctx.floor("CutState::track call sites", n_track, 2)
+    # ---------------- the pull path and the drain path of each loader validate alike
+    ctx.rule("R5-sibling-load", "try_next_run (pull path) and finalize (drain path) of a loader use the same validation vocabulary (read_count / try_next_segment / validate_after / checked_add / checked_mul / track)")
+    VOCAB = re.compile(r"(::read_count|::try_read_unsigned|::try_read_signed|::try_next_segment|::validate_after|::checked_add|::checked_mul|::checked_sub|::track)$")
+    n_pairs = 0
+    for ty in ("hexane::bool::BoolLoadIter", "hexane::rle::load::RleLoadIter"):
+        pa = [p for p in f.fns if norm_fn(p) == ty + "::try_next_run"]
+        pb = [p for p in f.fns if norm_fn(p) == ty + "::finalize"]
+        if len(pa) != 1 or len(pb) != 1:
+            raise facts.AnchorMissing(ty + "::{try_next_run, finalize}")
+        n_pairs += 1
+        va = {norm_fn(t.get("res") or t.get("fn")).split("::")[-1] for _, t in f.calls(f.fns[pa[0]]) if VOCAB.search(norm_fn(t.get("res") or t.get("fn")) or "")}
+        vb = {norm_fn(t.get("res") or t.get("fn")).split("::")[-1] for _, t in f.calls(f.fns[pb[0]]) if VOCAB.search(norm_fn(t.get("res") or t.get("fn")) or "")}
+        ctx.analysed_fns.update([pa[0], pb[0]])
+        ctx.ob("R5-sibling-load", "%s|pull and drain paths validate alike" % ty.split("::")[-1], va == vb and bool(va), f.fns[pb[0]]["sp"],
+               "both use %s" % sorted(va) if va == vb else "try_next_run uses %s but finalize uses %s: what the drain path reads is validated differently (only in pull %s, only in drain %s)" % (sorted(va), sorted(vb), sorted(va - vb), sorted(vb - va)))
+    ctx.floor("loader pull/drain pairs", n_pairs, 2)
     # ---------------- who may trust
     C39.run(ctx)
     ctx.level = "other"
